@@ -230,6 +230,8 @@ def run(ctx, replay=None):
     behs = [b for b in behs if any(s['op'] == 'StepInvalid' for s in b)]
     ctx.add_tlc(res, 'GVEnv: sequences with invalid actions')
     n_ops = replay_all(ctx, cfgs, behs, 'inner', 'invalid actions')
+    # the rejection of foreign actions does not depend on the library's debug flag
+    n_ops += replay_all(ctx, cfgs, behs, 'inner', 'invalid actions (debug flag off)', debug=False)
     ctx.add_counts(evaluations=n_ops, traces=len(behs) * len(cfgs))
     ctx.add_part('invalid actions', behaviours=len(behs), operations=n_ops)
     # (iv) membership predicates
